@@ -66,6 +66,13 @@ def tbl(fn):
     return dtree.table(fn.hir, self_env(fn))
 
 
+def tblx(fn):
+    """table with Option combinators (`map`, `and_then`, `map_or`, `map_or_else`, a top-level
+    `let p = o?`) expanded to the control flow they abbreviate"""
+    import pinned
+    return dtree.table(pinned.expand_options(fn.hir), self_env(fn))
+
+
 def panics(fn):
     """body is a bare panic!(..)"""
     b = src(fn.hir)
@@ -210,14 +217,24 @@ SORT_CMP_REV = T(*[(cs, l + ('.reverse()' if 'partial_cmp' in l else ''), ef) fo
 
 def check_comparators(run, F):
     n = 0
+    import ordeval
     for name, want in (('sort_cmp', SORT_CMP), ('sort_cmp_rev', SORT_CMP_REV)):
         fn = F.one('isnone::IsNone::' + name)
-        t = tbl(fn)
         n += 1
-        # the match on (self.to_opt(), other.to_opt()) is expanded by validity assignment with
-        # first-match semantics, so the table does not depend on the order of disjoint arms
-        run.ob('CMP.table', fn, 'IsNone::%s decision table' % name, t == want, fn.loc(),
-               'table %s' % dtree.show(t))
+        # the comparator touches its operands only through null tests, as_opt and partial_cmp:
+        # it is evaluated on all 12 input classes (ordeval.py) and compared with the
+        # specification, so the spelling (arm order, guards, Option combinators, where the
+        # reversal is applied) is irrelevant
+        try:
+            bad = ordeval.evaluate(fn, name == 'sort_cmp_rev')
+            det = '%d input classes agree with: nulls last, two nulls equal, valid values by partial_cmp%s, ' \
+                  'an incomparable pair orders the one that is itself null last' % (
+                      len(ordeval.classes()), ' reversed' if name.endswith('rev') else '')
+            if bad:
+                det = '; '.join('%s: returns %s, specified %s' % (ordeval.show_class(c), g, w) for c, g, w in bad[:3])
+        except ordeval.Unk as ex:
+            bad, det = [None], 'not evaluable: %s' % ex
+        run.ob('CMP.table', fn, 'IsNone::%s decision table' % name, not bad, fn.loc(), det)
     # overrides (never-null types): partial_cmp().unwrap()
     for fn in F.fns:
         if fn.kind == 'AssocFn' and fn.name in ('sort_cmp', 'sort_cmp_rev') and fn.impl_trait and \
